@@ -54,7 +54,8 @@ def run_tgs(run, quick=True):
     wd = vlib.spec_scratch(["system"])
     try:
         info = {"models": {}}
-        for cfg, expect in (("MCK5TGS.cfg", None), ("MCK5TGS_nononce.cfg", "DeliveredIsRight"), ("MCK5TGS_unbounded.cfg", "HopsBounded")):
+        for cfg, expect in (("MCK5TGS.cfg", None), ("MCK5TGS_hops2.cfg", None), ("MCK5TGS_nononce.cfg", "DeliveredIsRight"), ("MCK5TGS_unbounded.cfg", "HopsBounded"),
+                            ("MCK5TGS_authrealm.cfg", "ClientRequestsValid")):
             res = vlib.tlc(wd, "MCK5TGS", cfg=cfg, timeout=1800)
             violated = None
             if res.violation:
